@@ -1,8 +1,8 @@
 package main
 
 // tx.go: who must sign a transaction that carries a confirm, versus whose bridger ConfirmHandler checks.
-// Fully signed transactions (SIGN_MODE_DIRECT) are taken (a) as encoded bytes through BaseApp's runTx in
-// finalize mode and (b) as the transaction object through ValidateBasic of each message, the app's real ante
+// Fully signed transactions (SIGN_MODE_DIRECT) are taken (a) as encoded bytes inside a real block
+// (FinalizeBlock + Commit) and (b) as the transaction object through ValidateBasic of each message, the app's real ante
 // handler and the real MsgServiceRouter handler (what runTx does after decoding).  The technique follows
 // harness/c01/tx.go (MsgClaim); this file is about MsgConfirm.
 
@@ -157,13 +157,22 @@ func deliverTx(c *lib.Chain, asBytes bool, signer lib.Key, msg sdk.Msg) (require
 			err = fmt.Errorf("PANIC: %v", r)
 		}
 	}()
-	if asBytes {
-		_, _, err = app.SimDeliver(txCfg.TxEncoder(), b.GetTx())
-		return requiredSigners, err
-	}
 	tx := b.GetTx()
 	bz, e := txCfg.TxEncoder()(tx)
 	lib.Must(e)
+	if asBytes { // the real thing: a block that contains the transaction
+		resp, e := c.NextBlockResp(lib.BlockStep, [][]byte{bz})
+		if e != nil {
+			return requiredSigners, e
+		}
+		if len(resp.TxResults) != 1 {
+			return requiredSigners, fmt.Errorf("no tx result")
+		}
+		if r := resp.TxResults[0]; r.Code != 0 {
+			return requiredSigners, fmt.Errorf("code %d: %s", r.Code, r.Log)
+		}
+		return requiredSigners, nil
+	}
 	err = c.Try(func(cctx sdk.Context) error {
 		cctx = cctx.WithTxBytes(bz).WithGasMeter(storetypes.NewInfiniteGasMeter())
 		for _, m := range tx.GetMsgs() {
